@@ -39,7 +39,7 @@ EmitNc == PrintT(ToJson([meta |-> F.meta, header |-> F.header, rows |-> [r \in D
 \* expressible in both formats: score columns named like the NetCDF layout's own variables (colset 11) have no NetCDF counterpart
 \* ... files without a location column are a matter of the text format alone (a NetCDF file always names its locations), and the "close" sites
 \* (0.20002 degrees) are not single-precision numbers, which is what the NetCDF layout stores positions in
-InitNc == g \in {x \in Gens(0) : x.colset # 11 /\ x.hasId /\ x.sites = "far"} /\ phase = "file" /\ enc \in Encs(g) /\ ord \in Ords(enc)
+InitNc == g \in {x \in Gens(0) : x.colset # 11 /\ x.hasId /\ x.sites # "close"} /\ phase = "file" /\ enc \in Encs(g) /\ ord \in Ords(enc)
 EvaluateNc == phase = "file" /\ phase' = "emitted" /\ UNCHANGED <<g, enc, ord>> /\ EmitNc
 SpecNc == InitNc /\ [][EvaluateNc]_nvars
 InvRoundTrip == RoundTrip(I0, enc, ord, Names(I0))
